@@ -10,7 +10,7 @@ import json
 import os
 import random
 
-from .. import core, tlc, graph_cover
+from .. import core, tlc, graph_cover, apalache
 
 PROPS = ["C15", "C16"]
 KINDS = ["vec", "sv2", "sv4"]
@@ -59,6 +59,13 @@ def _deque_mc(res, work, tier):
                                    "ops": sum(len(p) for p in paths), "edges_per_op": per_ev,
                                    "replayed_on": KINDS})
     runs = [[core.label_event(g.edges[i][2]) for i in p] for p in paths]
+    flip = 0
+    for ops in runs:
+        for op in ops:
+            if op["ev"] == "advance" and op["n"] == maxadv:
+                flip += 1
+                if flip % 2 == 0:
+                    op["n"], op["max"] = 10 ** 9, True
     return runs
 
 
@@ -91,8 +98,11 @@ def _deque_random(rng, n_runs, n_ops):
                 ops.append({"ev": "pop_back"})
                 length = max(0, length - 1)
             elif x < pp + 0.40:
-                n = rng.choice([0, 1, 1, 2, 3, length // 2, length, length + 1, length + 5])
-                ops.append({"ev": "advance", "n": n})
+                n = rng.choice([0, 1, 1, 2, 3, length // 2, length, length + 1, length + 5, 10 ** 9])
+                op = {"ev": "advance", "n": n}
+                if n == 10 ** 9:
+                    op["max"] = True              # usize::MAX on the real deque
+                ops.append(op)
                 length = max(0, length - n)
             elif x < pp + 0.42:
                 ops.append({"ev": "clear"})
@@ -139,6 +149,13 @@ def _scan_deque_trace(trace):
 
 
 def run_c15(res, work, tier, seed):
+    os.makedirs(work, exist_ok=True)
+    t1 = apalache.check("DequeInd", "IndInv", work, init="Init", length=0)
+    t2 = apalache.check("DequeInd", "IndInv", work, init="IndInit", length=1)
+    t3 = apalache.check("DequeInd", "IndInv", work, init="IndInit", next_="NextBug", length=1, expect_error=True)
+    res.data["notes"].append("Apalache (unbounded lengths and advance counts): the waste bound 2*consumed <= container length is an "
+                             "inductive invariant of the transcribed operations (base %.1fs, step %.1fs); with the pre-fix pop_back "
+                             "the induction step fails as expected (%.1fs)" % (t1, t2, t3))
     det = _deque_mc(res, work, tier)
     rng = random.Random(seed * 7919 + 15)
     n_runs, n_ops = (40, 200) if tier == "quick" else (300, 2000)
